@@ -1,4 +1,4 @@
-* exhaustive: chain length <= 3, 4 shapes per head, 1 block verified ahead; every (position, version, shape, committed field)
+\* exhaustive: chain length <= 3, 4 shapes per head, 1 block verified ahead; every (position, version, shape, committed field)
 \* tamper and every non-continuing / wrong-root (resealed and hash-kept) / stale-class offer. measured 57 569 states / 7.5 M transitions
 CONSTANTS
   Versions <- MCVersions
